@@ -455,7 +455,6 @@ def check_conflicting_effects(
                 else:
                     msg = f"The effect {effect} at timing {timing} is in conflict with the effects already in the {name}."
                 raise UPConflictingEffectsException(msg)
-            fluents_inc_dec.add(effect.fluent)
             if (
                 simulated_effect is not None
                 and effect.fluent in simulated_effect.fluents
@@ -465,6 +464,8 @@ def check_conflicting_effects(
                 else:
                     msg = f"The effect {effect} at timing {timing} is in conflict with the simulated effects already in the {name}."
                 raise UPConflictingEffectsException(msg)
+            # record the fluent only once the effect is accepted: a rejected effect must leave no trace
+            fluents_inc_dec.add(effect.fluent)
         else:
             raise NotImplementedError
 
